@@ -472,8 +472,9 @@ class LLMRails:
 
         if self.config.colang_version == "1.0":
             # We try to find the longest prefix of messages for which we have a cache
-            # of events.
-            p = len(messages) - 1
+            # of events. The implicit cache is only used when there is no explicit state
+            # object (which carries the events of its own conversation).
+            p = len(messages) - 1 if state is None else 0
             while p > 0:
                 cache_key = get_events_history_cache_key(messages[0:p])
                 if cache_key in self.events_history_cache:
